@@ -443,6 +443,8 @@ type frec struct {
 	want string
 	alts []string // further permitted results (fused multiply-add)
 	tags []string
+	// noGuard: VERIF_C06_CORRUPT only (a deliberately wrong prediction is judged although the guard rejects it)
+	noGuard bool
 }
 
 type fshape struct {
@@ -937,12 +939,6 @@ func runFloatPrograms(c *core.Ctx, pool *gjs.Pool, fr *floatRun) {
 		return
 	}
 	c.Phase("float_tlc")
-	if os.Getenv("VERIF_C06_CORRUPT") == "float" {
-		// non-vacuity of the binding: one wrong prediction must be reported
-		s := fr.shapes[fr.order[len(fr.order)/2]]
-		s.rows[0].want = "12345"
-		s.rows[0].alts = nil
-	}
 	classCnt := map[string]int{}
 	for _, sk := range fr.order {
 		for _, rc := range fr.shapes[sk].rows {
@@ -990,6 +986,14 @@ func runFloatPrograms(c *core.Ctx, pool *gjs.Pool, fr *floatRun) {
 	// programs run in a seeded order; VERIF_C06_STOP_AT_FIRST=1 (sensitivity runs) skips the
 	// remaining programs once one has reported a new violation
 	perm := rand.New(rand.NewSource(c.Seed)).Perm(len(progs))
+	if os.Getenv("VERIF_C06_CORRUPT") == "float" {
+		// non-vacuity of the binding: one wrong prediction (in the program that runs first) must be reported
+		rc := progs[perm[0]].shapes[0].rows[0]
+		cp := *rc
+		cp.want, cp.alts = "12345", nil
+		cp.noGuard = os.Getenv("VERIF_C06_CORRUPT_NOGUARD") != ""
+		progs[perm[0]].shapes[0].rows[0] = &cp
+	}
 	stopAtFirst := os.Getenv("VERIF_C06_STOP_AT_FIRST") != ""
 	skipped := 0
 	c.ParMap(len(progs), func(j int) {
@@ -1044,7 +1048,7 @@ func runFloatPrograms(c *core.Ctx, pool *gjs.Pool, fr *floatRun) {
 					}
 					return false
 				}
-				if !accepted(nat) {
+				if !accepted(nat) && !rc.noGuard {
 					discards[i]++
 					mu.Lock()
 					if len(discardNotes) < 10 {
@@ -1111,7 +1115,7 @@ func runFloatPrograms(c *core.Ctx, pool *gjs.Pool, fr *floatRun) {
 	}
 	c.Set("float_part_evaluations", fr.total)
 	if len(fr.excl) > 0 {
-		c.Set("not_judged_go_leaves_result_open", fr.excl)
+		c.Set("float_expressions_not_judged_by_reason", fr.excl)
 	}
 	for _, groups := range results {
 		gks := make([]string, 0, len(groups))
